@@ -31,7 +31,10 @@ func (where Where) Build(builder Builder) {
 	for idx, expr := range where.Exprs {
 		if v, ok := expr.(OrConditions); !ok || len(v.Exprs) > 1 {
 			if idx != 0 {
-				where.Exprs[0], where.Exprs[idx] = where.Exprs[idx], where.Exprs[0]
+				exprs := make([]Expression, len(where.Exprs))
+				copy(exprs, where.Exprs)
+				exprs[0], exprs[idx] = exprs[idx], exprs[0]
+				where.Exprs = exprs
 			}
 			break
 		}
